@@ -1246,7 +1246,15 @@ func (e *Entry) ApplyDeviate(deviateOpts ...DeviateOpt) []error {
 						continue
 					}
 					if !hasIgnoreDeviateNotSupported(deviateOpts) {
-						dp.delete(deviatedNode.Name)
+						switch {
+						case dp.RPC != nil && dp.RPC.Input == deviatedNode:
+							// input and output are not kept in Dir
+							dp.RPC.Input = nil
+						case dp.RPC != nil && dp.RPC.Output == deviatedNode:
+							dp.RPC.Output = nil
+						default:
+							dp.delete(deviatedNode.Name)
+						}
 					}
 				case DeviationDelete:
 					if devSpec.Config != TSUnset {
